@@ -51,6 +51,14 @@ structure Cfg where
   completion : Bool
   topic : String
   retriable : Code → Bool
+  /-- BatchTimeout plus the scheduling slack granted to the timer goroutine, in µs of the trace clock;
+  0 = the run carries no clock (no `tick` events) -/
+  linger : Nat := 0
+
+/-- the accessors `(*Writer).batchSize / batchBytes / maxAttempts`: an option left at 0 means its default -/
+def effBatchSize (n : Nat) : Nat := if n = 0 then 100 else n
+def effBatchBytes (n : Nat) : Nat := if n = 0 then 1048576 else n
+def effMaxAttempts (n : Nat) : Nat := if n = 0 then 10 else n
 
 inductive Why | full | nofit | timer | close
   deriving DecidableEq, Repr
@@ -177,15 +185,19 @@ structure State where
   seq : Nat
   closeReturned : Nat
   fresh : Option Nat              -- batch just created by newWriteBatch inside writeMessages, its first `add` still to come
+  now : Nat                       -- the trace clock (µs), advanced by `tick`
+  openedAt : Nat → Nat            -- when each batch was created (its linger timer was armed)
 
 def State.init : State :=
   { closed := false, wlock := .free, entered := 0, inflight := 0, enterFalse := 0,
     pwOf := fun _ => none, pws := fun _ => none, qOf := fun _ => none, pwIds := [],
     batches := fun _ => none, batchIds := [], calls := fun _ => none, callIds := [],
-    log := fun _ => [], tps := [], journal := [], seq := 0, closeReturned := 0, fresh := none }
+    log := fun _ => [], tps := [], journal := [], seq := 0, closeReturned := 0, fresh := none,
+    now := 0, openedAt := fun _ => 0 }
 
 inductive Event
   | enter (ok : Bool)
+  | tick (t : Nat)                -- the clock reaches t
   | empty
   | begin_ (c : Nat) (msgs : List MsgSpec)
   | reject (c : Nat) (why : RejWhy) (i : Nat)
@@ -303,6 +315,20 @@ def noFullAttached (cfg : Cfg) (s : State) : Bool :=
         match s.batches b with
         | none => true
         | some B => !B.full cfg)
+
+/-- urgency of the linger timer: the clock cannot pass `openedAt + linger` of a batch that is still attached and whose
+timer has not fired — BatchTimeout is measured from the creation of the batch, whatever is appended meanwhile -/
+def notOverdue (cfg : Cfg) (s : State) (t : Nat) : Bool :=
+  cfg.linger == 0 || s.pwIds.all (fun pw =>
+    match s.pws pw with
+    | none => true
+    | some P =>
+      match P.curr with
+      | none => true
+      | some b =>
+        match s.batches b with
+        | none => true
+        | some B => B.timerFired || decide (t ≤ s.openedAt b + cfg.linger))
 
 /-! ### the transition function -/
 
@@ -433,6 +459,8 @@ def stepRet (cfg : Cfg) (s : State) (c : Nat) (r : Result) : Option State :=
 
 def step (cfg : Cfg) (s : State) (e : Event) : Option State :=
   match e with
+  | .tick t =>
+    if s.now ≤ t ∧ notOverdue cfg s t = true then some { s with now := t } else none
   | .enter ok =>
     if s.wlock = .free ∧ ok = !s.closed then
       if ok then some { s with entered := s.entered + 1, inflight := s.inflight + 1 }
@@ -472,7 +500,7 @@ def step (cfg : Cfg) (s : State) (e : Event) : Option State :=
     | none => none
     | some P =>
       if s.wlock.isCall = true ∧ P.curr = none ∧ P.pending = none ∧ (s.batches b).isNone ∧ s.fresh = none then
-        some { s with batchIds := s.batchIds ++ [b], fresh := some b,
+        some { s with batchIds := s.batchIds ++ [b], fresh := some b, openedAt := upd s.openedAt b s.now,
                       pws := upd s.pws pw (some { P with curr := some b, nbatches := P.nbatches + 1 }),
                       batches := upd s.batches b (some (Batch.new pw P.tp P.nbatches)) }
       else none
